@@ -17,7 +17,8 @@
 (* thread (or a thread inside pool code) may enter run() of a queued future.          *)
 EXTENDS WhenAll
 
-CONSTANT AllowSpurious   \* may the environment return spuriously from futex waits
+CONSTANTS AllowSpurious,   \* may the environment return spuriously from futex waits
+          ThreadNames      \* constant superset of the thread names (so that TLC can label the edges of Next)
 
 Internal == {"_opdone", "_mk0", "_mk1", "_pop", "_sched", "_body", "_tb1", "_tb2", "_chain", "_runret", "_wrun",
              "_links", "_dres", "_tu2", "_c0", "_c1", "_c2", "_c3", "_c4", "_dv", "_cb1", "_cb2", "_cb3",
@@ -279,65 +280,64 @@ SpuriousStep(s, t) ==
   [SetTop(s, t, [fr EXCEPT !.pc = "FutexRet", !.z = 3]) EXCEPT !.F[fr.f].fw = @ \ {t}]
 
 \* ------------------------------------------------------------------------------------ actions
-Act(t, site) ==
-  /\ Runnable(S, t) /\ Top(S, t).pc = site
-  /\ S' = Fin(StepThread(S, t))
-  /\ UNCHANGED <<prog, M>>
+\* thread t is parked at schedule point `site` and may run / takes its step
+At(t, site) == t \in Threads /\ Runnable(S, t) /\ Top(S, t).pc = site
+Do(t) == S' = Fin(StepThread(S, t)) /\ UNCHANGED <<prog, M>>
 
-Start(t) == Act(t, "Start")
-DrOp(t) == Act(t, "DrOp")
-DrEnd(t) == Act(t, "DrEnd")
-GateUp(t) == Act(t, "GateUp")
-GateSync(t) == Act(t, "GateSync")
-DrRunQ(t) == Act(t, "DrRunQ")
-FuRunCas(t) == Act(t, "FuRunCas")
-FuNotify(t) == Act(t, "FuNotify")
-FutexWake(t, W) == Act(t, "FutexWake") /\ W = S.F[Top(S, t).f].fw
-FuTscDec(t) == Act(t, "FuTscDec")
-FuTscInc(t) == Act(t, "FuTscInc")
-FuChainLd(t) == Act(t, "FuChainLd")
-FuChainTake(t) == Act(t, "FuChainTake")
-FuWaitLd(t) == Act(t, "FuWaitLd")
-FuWaitBlock(t) == Act(t, "FuWaitBlock")
-FutexWait(t) == Act(t, "FutexWait")
-FutexRet(t) == Act(t, "FutexRet")
-FuIncRef(t) == Act(t, "FuIncRef")
-FuDecRef(t) == Act(t, "FuDecRef")
-FuDealloc(t) == Act(t, "FuDealloc")
-FuReadyLd(t) == Act(t, "FuReadyLd")
-FuThenLd(t) == Act(t, "FuThenLd")
-FuThenHeadLd(t) == Act(t, "FuThenHeadLd")
-FuThenPush(t) == Act(t, "FuThenPush")
-FuThenRecheck(t) == Act(t, "FuThenRecheck")
-FuWaDec(t) == Act(t, "FuWaDec")
-FuWaCountLd(t) == Act(t, "FuWaCountLd")
-FuWyCas(t) == Act(t, "FuWyCas")
-FuWyWinnerLd(t) == Act(t, "FuWyWinnerLd")
-FuWyInlineCas(t) == Act(t, "FuWyInlineCas")
-FuWyWinnerLd2(t) == Act(t, "FuWyWinnerLd2")
-PoolEnter(t, g) == PoolMayEnter(S, t, g) /\ S' = Fin(PoolEnterStep(S, t, g)) /\ UNCHANGED <<prog, M>>
-PoolReturn(t) == PoolMayReturn(S, t) /\ S' = Fin(PoolReturnStep(S, t)) /\ UNCHANGED <<prog, M>>
+Start(t) == At(t, "Start") /\ Do(t)
+DrOp(t) == At(t, "DrOp") /\ Do(t)
+DrEnd(t) == At(t, "DrEnd") /\ Do(t)
+GateUp(t) == At(t, "GateUp") /\ Do(t)
+GateSync(t) == At(t, "GateSync") /\ Do(t)
+DrRunQ(t) == At(t, "DrRunQ") /\ Do(t)
+FuRunCas(t) == At(t, "FuRunCas") /\ Do(t)
+FuNotify(t) == At(t, "FuNotify") /\ Do(t)
+FutexWake(t, W) == At(t, "FutexWake") /\ W = S.F[Top(S, t).f].fw /\ Do(t)
+FuTscDec(t) == At(t, "FuTscDec") /\ Do(t)
+FuTscInc(t) == At(t, "FuTscInc") /\ Do(t)
+FuChainLd(t) == At(t, "FuChainLd") /\ Do(t)
+FuChainTake(t) == At(t, "FuChainTake") /\ Do(t)
+FuWaitLd(t) == At(t, "FuWaitLd") /\ Do(t)
+FuWaitBlock(t) == At(t, "FuWaitBlock") /\ Do(t)
+FutexWait(t) == At(t, "FutexWait") /\ Do(t)
+FutexRet(t) == At(t, "FutexRet") /\ Do(t)
+FuIncRef(t) == At(t, "FuIncRef") /\ Do(t)
+FuDecRef(t) == At(t, "FuDecRef") /\ Do(t)
+FuDealloc(t) == At(t, "FuDealloc") /\ Do(t)
+FuReadyLd(t) == At(t, "FuReadyLd") /\ Do(t)
+FuThenLd(t) == At(t, "FuThenLd") /\ Do(t)
+FuThenHeadLd(t) == At(t, "FuThenHeadLd") /\ Do(t)
+FuThenPush(t) == At(t, "FuThenPush") /\ Do(t)
+FuThenRecheck(t) == At(t, "FuThenRecheck") /\ Do(t)
+FuWaDec(t) == At(t, "FuWaDec") /\ Do(t)
+FuWaCountLd(t) == At(t, "FuWaCountLd") /\ Do(t)
+FuWyCas(t) == At(t, "FuWyCas") /\ Do(t)
+FuWyWinnerLd(t) == At(t, "FuWyWinnerLd") /\ Do(t)
+FuWyInlineCas(t) == At(t, "FuWyInlineCas") /\ Do(t)
+FuWyWinnerLd2(t) == At(t, "FuWyWinnerLd2") /\ Do(t)
+PoolEnter(t, g) == t \in Threads /\ g \in FutIds /\ PoolMayEnter(S, t, g) /\ S' = Fin(PoolEnterStep(S, t, g)) /\ UNCHANGED <<prog, M>>
+PoolReturn(t) == t \in Threads /\ PoolMayReturn(S, t) /\ S' = Fin(PoolReturnStep(S, t)) /\ UNCHANGED <<prog, M>>
 \* model level: the futex lets exactly the requested time pass (the code hands the full request to every call)
-FutexTimeout(t) == TimedBlocked(S, t) /\ S' = TimeoutStep(S, t, Top(S, t).y) /\ UNCHANGED <<prog, M>>
+FutexTimeout(t) == t \in Threads /\ TimedBlocked(S, t) /\ S' = TimeoutStep(S, t, Top(S, t).y) /\ UNCHANGED <<prog, M>>
 FutexSpurious(t) ==
-  /\ AllowSpurious /\ S.K[t] # <<>> /\ Top(S, t).pc = "FutexBlocked"
+  /\ AllowSpurious /\ t \in Threads /\ S.K[t] # <<>> /\ Top(S, t).pc = "FutexBlocked"
   /\ S' = SpuriousStep(S, t) /\ UNCHANGED <<prog, M>>
 
-WakeSets(t) == IF S.K[t] # <<>> /\ Top(S, t).pc = "FutexWake" THEN {S.F[Top(S, t).f].fw} ELSE {}
+MaxFutIds == 1 .. 8
 AllDone == \A t \in Threads : S.K[t] = <<>> \/ (t \in Workers /\ Len(S.K[t]) = 1)
 Terminated == AllDone /\ UNCHANGED vars
 
 \* (the disjunction is spelled out so that TLC labels every edge of the dumped graph)
 Next ==
-  \/ \E t \in Threads :
+  \/ \E t \in ThreadNames :
        \/ Start(t) \/ DrOp(t) \/ DrEnd(t) \/ GateUp(t) \/ GateSync(t) \/ DrRunQ(t)
-       \/ FuRunCas(t) \/ FuNotify(t) \/ (\E W \in WakeSets(t) : FutexWake(t, W)) \/ FuTscDec(t) \/ FuTscInc(t)
+       \/ FuRunCas(t) \/ FuNotify(t) \/ (\E W \in SUBSET ThreadNames : FutexWake(t, W)) \/ FuTscDec(t) \/ FuTscInc(t)
        \/ FuChainLd(t) \/ FuChainTake(t)
        \/ FuWaitLd(t) \/ FuWaitBlock(t) \/ FutexWait(t) \/ FutexRet(t)
        \/ FuIncRef(t) \/ FuDecRef(t) \/ FuDealloc(t) \/ FuReadyLd(t)
        \/ FuThenLd(t) \/ FuThenHeadLd(t) \/ FuThenPush(t) \/ FuThenRecheck(t)
        \/ FuWaDec(t) \/ FuWaCountLd(t) \/ FuWyCas(t) \/ FuWyWinnerLd(t) \/ FuWyInlineCas(t) \/ FuWyWinnerLd2(t)
-       \/ (\E g \in FutIds : PoolEnter(t, g)) \/ PoolReturn(t)
+       \/ (\E g \in MaxFutIds : PoolEnter(t, g)) \/ PoolReturn(t)
        \/ FutexTimeout(t) \/ FutexSpurious(t)
   \/ Terminated
 
